@@ -14,9 +14,17 @@ CHECKS = {
    text="Bounded-exhaustive refinement: TLC enumerates every journal state of the bounded model and checks the C13 laws on it; a shortest operation path to every distinct state, followed by every mutating operation and a battery of queries, is executed on the real Journaler (memory and file) and TLC compares each returned value with the model's. Random sequences (sparse/large numbers, odd CompIDs, arbitrary bytes) extend beyond the bound.",
    design_ref="5/C13",
    note="Numbers < 2^31; message bytes compared by SHA-1 prefix; set_seq_num with non-positive values is outside the property. " + COMMON_NOTE),
+ "C08": dict(
+   engine="JournalTx",
+   technique="TLA+ transactional journal model (spec/JournalTx.tla: durable vs connection view, statement lists, Crash/Close actions) model-checked by TLC; crash experiments on real files at every statement/commit boundary evaluated by a TLA+ evaluator against the functional model",
+   text="TLC checks J1 (all-or-nothing), J3 (completed operations durable), J4 (close loses nothing) for every bounded operation history x every statement boundary of the model, and reproduces the loss when set_seq_num does not commit (vacuity self-check). Every operation sequence of the model graph plus seeded random histories is run on a real file-backed Journaler; at every boundary before/after each execute() and commit() of the last operation, right after it returned, and after a normal close, the on-disk state is reopened by a fresh Journaler and TLC decides whether it equals the model state before or after the operation. A sample is realised by real os._exit() in forked children.",
+   design_ref="5/C08",
+   note="SQLite rollback-journal atomicity trusted; crash = process death (not power loss); default realisation is an on-disk snapshot of db+journal at the boundary (fork per point does not scale in this VM), cross-checked by real forked crashes on a sample. " + COMMON_NOTE),
 }
 
 ENGINES = [
+ dict(name="JournalTx", path="spec/JournalTx.tla spec/JournalCrashEval.tla harness/crash.py harness/props/c08.py",
+      serves_properties=["C08"], kind_free_text="TLA+ model of the journal's SQLite transactions with crash points + TLC + crash experiments on real files"),
  dict(name="Journal", path="spec/Journal.tla spec/JournalMC.tla spec/JournalEval.tla harness/props/c13.py",
       serves_properties=["C13"], kind_free_text="TLA+ reference model of the SQLite journal + TLC + replay/trace evaluation"),
 ]
